@@ -396,7 +396,8 @@ pub fn judge_events(cfg: &Cfg, f: &[u8], evs: &[Ev], replied: Option<&Vec<u8>>) 
     let reply_sport: Option<String> = replied.and_then(|r| decode_reply(r).ok()).and_then(|d| d.udp().map(|u| u.sport).or(d.tcp().map(|t| t.sport))).map(|p| p.to_string());
     for e in evs {
         for (k, val) in &e.fields {
-            if val.is_empty() {
+            // an empty column / a "-" placeholder prints no address at all
+            if val.is_empty() || val == "-" {
                 continue;
             }
             match k.as_str() {
